@@ -233,6 +233,12 @@ def build_parent(raw):
     s = S.build(raw)
     for a, b in raw.get("merges") or []:
         s.get_plate(int(a)).merge(s.get_plate(int(b)))
+    for st in raw.get("steps") or []:
+        # item 23: public-API calls that leave a plate PARTLY observed (the constructor refuses such screens)
+        if st[0] == "merge":
+            s.get_plate(int(st[1])).merge(s.get_plate(int(st[2])))
+        else:
+            s.set_observed(np.array(st[1], dtype=bool), np.array(st[2], dtype=float))
     if raw.get("via_h5"):
         # item 19, load path: the parent is what Screen.load_h5 returns for the saved rows (under DEBUG logging for the verbose slice)
         import shutil
@@ -1200,6 +1206,138 @@ def entry_and_load_classes(ctx, res, rng):
 
 
 
+# ---------------------------------------------------------------- HARDENING_CHECKLIST item 23: partly observed plates through the public API
+
+def gen_steps(rng, raw):
+    """1-3 calls of Screen.set_observed with a mask covering PART of an unobserved plate, or Plate.merge of an observed plate into an unobserved
+    one / the other way round; returns the steps (ids as they are at the time of each call)"""
+    s = S.build(raw)
+    steps = []
+    for _ in range(rng.randint(1, 3)):
+        ids = [int(x) for x in s.unique_plate_ids]
+        mask = [bool(b) for b in s.observation_mask]
+        pid = [int(x) for x in s.plate_ids]
+        rows = {q: [i for i in range(len(pid)) if pid[i] == q] for q in ids}
+        unobs = {q: [i for i in rows[q] if not mask[i]] for q in ids}
+        has_obs = {q: any(mask[i] for i in rows[q]) for q in ids}
+        cross = [(a, b) for a in ids for b in ids if a != b and has_obs[a] != has_obs[b]]
+        part = [q for q in ids if len(unobs[q]) >= 2]
+        kind = rng.choice(["set_observed", "set_observed", "merge"])
+        if kind == "merge" and cross:
+            a, b = rng.choice(cross)                    # observed.merge(unobserved) or unobserved.merge(observed)
+            s.get_plate(a).merge(s.get_plate(b))
+            steps.append(["merge", a, b])
+        elif part:
+            q = rng.choice(part)
+            chosen = set(rng.sample(unobs[q], rng.randint(1, len(unobs[q]) - 1)))       # a strict, non-empty part of the plate
+            if rng.random() < 0.3:
+                other = [i for r in ids if r != q for i in unobs[r]]
+                chosen |= set(rng.sample(other, min(len(other), rng.randint(0, 2))))
+            m = [i in chosen for i in range(len(pid))]
+            vals = [rng.choice([0.0, 0.25, 0.5, 0.9, 1.0]) for _ in range(sum(m))]
+            s.set_observed(np.array(m, dtype=bool), np.array(vals, dtype=float))
+            steps.append(["set_observed", m, vals])
+        elif cross:
+            a, b = rng.choice(cross)
+            s.get_plate(a).merge(s.get_plate(b))
+            steps.append(["merge", a, b])
+    return steps
+
+
+def mixed_plates(E, idx=None):
+    """plate ids (among the rows `idx`, default all) that contain both observed and unobserved rows"""
+    st = {}
+    for i in (range(E.n) if idx is None else idx):
+        st.setdefault(E.parent["plate_ids"][i], set()).add(E.parent["observation_mask"][i])
+    return sorted(q for q, v in st.items() if len(v) == 2)
+
+
+def to_screen_tolerant(E, v, res, case):
+    """to_screen of a view; a view that contains a partly observed plate is refused by Screen(...) (constructor invariant): that is not a failure here"""
+    idx = [i for i, b in enumerate(v.selection_vector) if b]
+    try:
+        t = check_to_screen(E, v, res, case)
+        return S.show_screen(t) + "|" + S.show_rows(t)
+    except ValueError as e:
+        if mixed_plates(E, idx):
+            res.count("to_screen.partly-observed-plate-refused")
+            return S.err_tok(e)
+        res.fail("to_screen() of a view of a valid screen raises", case, "%s: %s" % (type(e).__name__, e), "a screen", signature="C14:to_screen:raises")
+        return S.err_tok(e)
+
+
+def partly_observed_case(res, case, queue=None):
+    raw = case["raw"]
+    E = Eval(raw, res, case, case.get("lseed", 0))
+    s = E.screen
+    n = E.n
+    mask = E.parent["observation_mask"]
+    res.count("class.partly-observed-plates." + ("mixed" if mixed_plates(E) else "uniform"))
+    eraw = dict(raw, pnames=E.parent["plate_names"], obs=[float(x) for x in s.observations], mask=[False] * n, tmap=None, smap=None)
+    for k in ("merges", "steps", "via_h5"):
+        eraw.pop(k, None)
+    toks = S.sel_tok(mask) + " %s " + S.raw_to_tokens(eraw)
+    # the split itself: observed view = rows where mask, unobserved view = rows where ~mask, None exactly for an empty side
+    vo, vu = s.subset_observed(), s.subset_unobserved()
+    so = [bool(b) for b in vo.selection_vector] if vo is not None else None
+    su = [bool(b) for b in vu.selection_vector] if vu is not None else None
+    if (so is not None and so != mask) or (su is not None and su != [not b for b in mask]) or (so is None and any(mask)) or (su is None and not all(mask)):
+        res.fail("the observed / unobserved views do not split the screen by its mask (every row in exactly one of them: observed rows in the observed "
+                 "view, the others in the unobserved view)", case, {"observed": so, "unobserved": su}, {"observed": mask, "unobserved": [not b for b in mask]},
+                 signature="C14:split")
+    trees = [["o"], ["u"], ["c", ["o"], ["u"]], ["i", ["o"]], ["i", ["u"]], ["q", ["u"]], ["q", ["o"]], ["n", [["u"], ["o"]]]]
+    nu = sum(1 for b in mask if not b)
+    if nu:
+        trees.append(["s", ["u"], case["inner"][:nu] + [True] * max(0, nu - len(case["inner"]))])
+    for q in mixed_plates(E)[:2]:
+        trees += [["p", q], ["c", ["p", q], ["u"]]]
+    trees.append(case["tree"])
+    for tree in trees:
+        try:
+            v, _ = E.ev(tree)
+        except Exception as e:      # noqa: BLE001
+            if queue is not None:
+                queue("vexprm " + toks % S.lst(rpn(tree), "+"), err_tok(e), case)
+            continue
+        if v.screen is not E.screen:
+            continue
+        out = to_screen_tolerant(E, v, res, case)
+        if queue is not None:
+            queue("vexprm " + toks % S.lst(rpn(tree), "+"), show_view(v), case)
+            queue("vscreenm " + toks % S.lst(rpn(tree), "+"), out, case)
+    extras(E, raw, res, case, None, None, True, True)
+    E.check_alias("partly-observed")
+    E.recheck_all()
+
+
+def partly_observed_class(ctx, res, rng, queue):
+    n_max = 12 if ctx.tier == "quick" else 24
+    done = 0
+    for t in range(ctx.scale(40, 400)):
+        if done >= ctx.scale(14, 140):
+            break
+        raw = gen_screen(rng, n_max)
+        if len(raw["snames"]) < 4 or len(set(raw["pnames"])) < 2 or raw.get("mask") is None:
+            continue
+        raw["steps"] = gen_steps(rng, raw)
+        if not raw["steps"]:
+            continue
+        done += 1
+
+        def sizes_of(tree, raw=raw):
+            E, v, err = run_tree(raw, tree, None, None)
+            return None if v is None else int(v.size)
+
+        case = {"kind": "partly-observed", "raw": raw, "tree": gen_tree(rng, raw, rng.randint(2, 4), sizes_of, allow_foreign=False),
+                "inner": gen_mask(rng, len(raw["snames"])), "lseed": rng.randrange(1 << 30), "verbose": done % 4 == 0}
+        res.evaluations += 1
+        res.count("class.partly-observed-plates")
+        if case["verbose"]:
+            res.count("class.verbose-logging")
+        guarded(partly_observed_case, res, case, queue)
+
+
+
 def run(ctx, res):
     res.rule = RULE
     rng = ctx.subrng("c14")
@@ -1220,6 +1358,7 @@ def run(ctx, res):
     # first, so that an identity-keyed cache is reported on a case whose replay re-creates the address reuse
     checklist_classes(ctx, res, ctx.subrng("c14", "classes"), queue)
     entry_and_load_classes(ctx, res, ctx.subrng("c14", "entry"))
+    partly_observed_class(ctx, res, ctx.subrng("c14", "partly"), queue)
     for t in range(n_trees):
         raw = gen_screen(rng, n_max)
         if len(set(raw["pnames"])) >= 2 and rng.random() < 0.4:
@@ -1294,6 +1433,9 @@ def replay(ctx, case, res):
         return
     if case.get("kind") == "load-nan-inf":
         guarded(load_case, res, case)
+        return
+    if case.get("kind") == "partly-observed":
+        guarded(partly_observed_case, res, case)
         return
     with G.vctx(case.get("verbose") and case.get("kind") not in ("temporaries", "instalments", "int-width")):
         replay_inner(ctx, case, res)
